@@ -7,9 +7,11 @@ using namespace romea::core;
 using IV = std::vector<long long>;
 using IM = std::vector<IV>;
 
+// real coordinate = g_unit * integer (a power of two: exact): the same cloud expressed in large or tiny units
+static double g_unit = 1;
 template<class PT, size_t DIM> static PT mk(const IV & p)
 {
-  PT x; for (size_t a = 0; a < DIM; ++a) {x[a] = (typename PT::Scalar)p[a];}
+  PT x; for (size_t a = 0; a < DIM; ++a) {x[a] = (typename PT::Scalar)(g_unit * (double)p[a]);}
   if ((size_t)PT::RowsAtCompileTime > DIM) {x[DIM] = 1;}
   return x;
 }
@@ -54,12 +56,21 @@ static void run(vh::Rng & r, int type, vh::Out & out)
   long long c = off * den * den;
   int n = (int)r.range(12, r.coin(1, 5) ? 400 : 60);
   int k = (int)r.range(3, std::min(30, n - 1));
+  // the unit the cloud is expressed in (normals do not depend on it)
+  g_unit = r.coin(1, 3) ? (sizeof(S) == 4 ? r.pick(std::vector<double>{std::ldexp(1.0, -8), std::ldexp(1.0, -16), 16.0}) :
+    r.pick(std::vector<double>{std::ldexp(1.0, -8), std::ldexp(1.0, -16), std::ldexp(1.0, -32), 1024.0})) : 1.0;
+  if (sizeof(S) == 4 && std::llabs(off) > 30) {g_unit = 1.0;}
   std::vector<IV> pts;
+  // a thin two-row zig-zag strip in the plane (double only: in float the rounding of the long axis swamps the strip's width)
+  const bool strip = DIM == 3 && sizeof(S) == 8 && dirs.size() >= 2 && r.coin(1, 4);
+  const long long L = r.pick(IV{30, 100});
   for (int i = 0; i < n; ++i) {
     IV p = p0;
-    for (auto & d : dirs) {long long m = r.range(-12, 12); for (size_t a = 0; a < DIM; ++a) {p[a] += m * d[a];}}
+    if (strip) {for (size_t a = 0; a < DIM; ++a) {p[a] += (i - n / 2) * L * dirs[0][a] + (i % 2) * dirs[1][a];}}
+    else {for (auto & d : dirs) {long long m = r.range(-12, 12); for (size_t a = 0; a < DIM; ++a) {p[a] += m * d[a];}}}
     pts.push_back(p);
   }
+  if (strip && sizeof(S) == 4) {g_unit = 1.0;}
   PointSet<PT> ps; for (auto & p : pts) {ps.push_back(mk<PT, DIM>(p));}
   auto estimate = [&](const PointSet<PT> & cloud, std::vector<IV> & outs, std::vector<int> & exact, std::vector<int> & curv0) {
       NormalSet<PT> normals(cloud.size());
@@ -88,6 +99,7 @@ static void run(vh::Rng & r, int type, vh::Out & out)
   estimate(ps2, outs2, exact2, curv02);
   for (size_t i = 0; i < pts2.size(); ++i) {gap2.push_back(wellConditioned<DIM>(pts2, i, k) && exact2[i] && exact[i]);}
   out.put(vh::Ev("equiv").mat("Q", Q).mat("outs", outs).mat("outs2", outs2).raw("gap", bools(gap)).raw("gap2", bools(gap2)));
+  g_unit = 1.0;
   // histories: ONE estimator (k = 8) and ONE point-set buffer per point type, refilled in place frame after frame with
   // two-patch clouds (two surfaces far apart, so that every true neighbourhood lies within one patch)
   {
